@@ -1,2 +1,2 @@
 from .speclib import REG  # noqa
-from . import c_graph, c_rules, c_rule_builder  # noqa
+from . import c_graph, c_rules, c_rule_builder, l_algebra  # noqa
